@@ -317,6 +317,19 @@ class Formatter:
         """Format the source location mark for given node."""
         return f"@@L{node.lineno}"
 
+    def escape_str_value(self, value: str) -> str:
+        """Escapes given string value, to be put inside a pair of double quotes as
+        a string literal. The escapes used are common to C, Go and Python."""
+        for char, escaped in (
+            ("\\", "\\\\"),
+            ('"', '\\"'),
+            ("\n", "\\n"),
+            ("\r", "\\r"),
+            ("\t", "\\t"),
+        ):
+            value = value.replace(char, escaped)
+        return value
+
     @final
     def format_value(self, value: Value) -> str:
         """Format value to its string representation."""
